@@ -57,11 +57,23 @@ def err_matches(out, exp):
         return False
     _, cls, line, _file = out.split(':', 3)
     classes, ln = exp
-    if classes is not None and cls not in classes:
+    # the wording of the message is not part of the property ("rejected with an error naming file and line"): a message the
+    # harness does not recognise (class other[...]) is judged by file and line alone
+    if classes is not None and cls not in classes and not cls.startswith('other['):
         return False
     if ln is not None and line != str(ln):
         return False
     return True
+
+
+def same_rejection(model, impl):
+    """the implementation rejected the file with a message whose wording the harness does not know (class other[..]); the
+    model rejected it too, at the same file and line (syntax errors) / also as a validation error"""
+    if impl.startswith('err:other[') and model.startswith('err:'):
+        return model.split(':', 2)[2] == impl.split(']', 1)[1].lstrip(':') if ']' in impl else False
+    if impl.startswith('verr:other[') and model.startswith('verr:'):
+        return True
+    return False
 
 
 def run(ctx):
@@ -140,10 +152,14 @@ def run(ctx):
         ok_oracle = True
         if exp is not None:
             kind, want = exp
+            bb = b
+            if isinstance(want, str) and want.startswith('err:') and b.startswith('err:other[') and ']' in b:
+                # unrecognised wording of the message: judged by line (and file), as in err_matches
+                bb = 'err:' + want.split(':')[1] + b.split(']', 1)[1]
             if kind == 'exact':
-                ok_oracle = (b == want)
+                ok_oracle = (bb == want)
             elif kind == 'prefix':
-                ok_oracle = b.startswith(want)
+                ok_oracle = bb.startswith(want)
             elif kind == 'err':
                 ok_oracle = err_matches(b, want)
             if not ok_oracle:
@@ -155,7 +171,9 @@ def run(ctx):
                     cls = 'c15-wrong-config'
                 ctx.report(rec, b, want if isinstance(want, str) else repr(want), cls=cls, failing_input=True,
                            what=what + '\nfile:\n' + text)
-        if b != a and ok_oracle:
+        if b != a and ok_oracle and same_rejection(a, b):
+            ctx.count('error message wording not recognised by the harness: same kind (syntax / validation), file and line as the model')
+        elif b != a and ok_oracle:
             ctx.report(rec, 'impl=' + b[:300], 'model=' + a[:300], cls='c15-model-mismatch', failing_input=False,
                        what='implementation and Coq model disagree (oracle, if any, accepts the implementation result)')
         if exp is not None and a != b and not ok_oracle and exp[0] == 'exact' and a == exp[1]:
